@@ -324,10 +324,11 @@ let () =
                 let nc = int_of_string (List.hd rest) in
                 let rest = List.tl rest in
                 let cls = List.map parse_clause (List.filteri (fun i _ -> i < nc) rest) in
-                let nums = Array.of_list (List.map of_hex32 (List.filteri (fun i _ -> i >= nc) rest)) in
-                let lo = List.init n (fun i -> nums.(2 * i)) and hi = List.init n (fun i -> nums.(2 * i + 1)) in
+                let toks = Array.of_list (List.filteri (fun i _ -> i >= nc) rest) in
+                let lo = List.init n (fun i -> of_hex32 toks.(3 * i)) and hi = List.init n (fun i -> of_hex32 toks.(3 * i + 1)) in
+                let fl = List.init n (fun i -> toks.(3 * i + 2) = "1") in
                 let t = { t_clauses = cls; t_root = nat_of_int (int_of_string root); t_terminal = (term = "1") } in
-                out ("P " ^ dump_tape (tape_push (nat_of_int n) (keep_interval f32 lo hi) t))
+                out ("P " ^ dump_tape (tape_push (nat_of_int n) (keep_interval f32 lo hi fl) t))
             | "pushpt", n :: root :: term :: rest ->
                 let n = int_of_string n in
                 let nc = int_of_string (List.hd rest) in
